@@ -26,12 +26,14 @@ SameM(obs, exp, twice) == IF ~IsOk(exp) THEN "err" \in DOMAIN obs
                           ELSE IsOk(obs) /\ obs.ok = (IF twice THEN <<exp.ok, exp.ok>> ELSE exp.ok)
 Standalone == {"nat", "int", "u128", "i128"}
 Twice == {"m_vecnat", "m_vecint", "m_vecnatint"}
-EncOK(r, tag) ==
+Kinds == {"nat", "int", "u128", "i128"}
+ToMsg(e, b) == IF IsOk(e) /\ e.n = Len(b) THEN [ok |-> e.ok] ELSE [err |-> 1]
+EncOK(r, E, tag) ==
   tag \notin DOMAIN r.enc \/
   LET e == r.enc[tag] IN
-  IF tag \in {"nat", "m_nat", "u128", "m_u128", "m_natu64"}
-  THEN e = MinLeb(Exp(r.b, "nat").ok.bits)
-  ELSE e = MinSleb(Exp(r.b, "int").ok)
+  IF tag \in {"nat", "m_nat", "u128", "m_u128"}
+  THEN e = MinLeb(E["nat"].ok.bits)
+  ELSE e = MinSleb(E["int"].ok)
 
 VARIABLES l
 Init == l = 1
@@ -39,12 +41,15 @@ Bad(tag) == PrintT(<<"MISMATCH", l, tag>>)
 Next == /\ l <= Len(Rec)
         /\ LET r == Rec[l] IN
            IF "abort" \in DOMAIN r THEN Bad("abort")
-           ELSE /\ \A tag \in DOMAIN r.obs :
+           ELSE LET E == [k \in Kinds |-> Exp(r.b, k)]          \* evaluated once per line
+                    M == [k \in Kinds |-> ToMsg(E[k], r.b)]
+                IN
+                /\ \A tag \in DOMAIN r.obs :
                      IF tag \in Standalone
-                     THEN (IF Same(r.obs[tag], Exp(r.b, Kind(tag))) THEN TRUE ELSE Bad(tag))
-                     ELSE (IF SameM(r.obs[tag], ExpMsg(r.b, Kind(tag)), tag \in Twice) THEN TRUE ELSE Bad(tag))
-                /\ \A tag \in {"nat", "m_nat", "u128", "m_u128", "m_natu64", "int", "m_int", "i128", "m_i128"} :
-                     IF EncOK(r, tag) THEN TRUE ELSE Bad("enc_" \o tag)
+                     THEN (IF Same(r.obs[tag], E[Kind(tag)]) THEN TRUE ELSE Bad(tag))
+                     ELSE (IF SameM(r.obs[tag], M[Kind(tag)], tag \in Twice) THEN TRUE ELSE Bad(tag))
+                /\ \A tag \in {"nat", "m_nat", "u128", "m_u128", "int", "m_int", "i128", "m_i128"} :
+                     IF EncOK(r, E, tag) THEN TRUE ELSE Bad("enc_" \o tag)
         /\ l' = l + 1
 Spec == Init /\ [][Next]_l
 Post == PrintT(<<"CONSUMED", TLCGet("stats").diameter - 1, Len(Rec)>>)
